@@ -118,7 +118,8 @@ func writes(c pgcheck.ColCfg, k int, v, v2 []byte, thorough bool) []pgcheck.Stmt
 		sess.Ext("", "insert into t (id, plain, c) values ($1, $2, $3), ($4, $5, $6)",
 			[][]byte{pgcheck.I4(k), []byte("b1"), pgcheck.BinParam(c.Shadow, v), pgcheck.I4(k + 100), []byte("b2"), pgcheck.BinParam(c.Shadow, v2)}, []int16{0, 0, 1, 0, 0, 1}, nil, nil), v, v2))
 	out = append(out, pgcheck.Mk("ext-insert-schema-order-params", "", true, true,
-		sess.Ext("", "insert into t values ($1, $2, $3)", [][]byte{pgcheck.I4(k), []byte("so"), pgcheck.TextParams(c.Shadow, v)[0]}, nil, nil, nil), v))
+		// (the unprotected parameter next to the protected one is the empty string - not NULL)
+		sess.Ext("", "insert into t values ($1, $2, $3)", [][]byte{pgcheck.I4(k), {}, pgcheck.TextParams(c.Shadow, v)[0]}, nil, nil, nil), v))
 	out = append(out, pgcheck.Mk("ext-update-text-param", "", true, true,
 		sess.Ext("", "update t set c = $1 where id = $2", [][]byte{pgcheck.TextParams(c.Shadow, v)[0], pgcheck.I4(k - 1)}, nil, nil, nil), v))
 	// named statement parsed once and executed twice with different values
